@@ -412,6 +412,9 @@ class SimSocket(object):
     def recv_into(self, buf, count=0):
         if not count:
             count = len(buf)
+        if count > len(buf):
+            # what socket.recv_into does
+            raise ValueError('buffer too small for requested bytes')
         out = self._recv(count, self.timeout)
         buf[:len(out)] = out
         return len(out)
@@ -522,7 +525,8 @@ class SimTLS(object):
         return out
 
     def recv_into(self, buf, count=0):
-        if not count:
+        if not count or count > len(buf):
+            # SSLSocket.recv_into clamps the request to the size of the buffer
             count = len(buf)
         out = self.recv(count)
         buf[:len(out)] = out
